@@ -281,7 +281,7 @@ PROPS["C12"] = dict(
           "a minimal, range-checked iterator deriving from xrandom_access_iterator_base and xrandom_access_iterator_ext; a bitset view of more than 2^31 bits over untouched calloc memory and a stepping iterator with a step above 2^31 over a PROT_READ mapping, so that positions, differences and steps do not fit 32 bits). Steps: ++ -- it++ it-- += -= it+n n+it it-n it[n] a-b, the six comparisons, dereference, write, the size_t overloads, "
           "full forward and backward traversal, container resize with walkers re-seated. Every result is compared with index arithmetic on the model; both walkers are re-validated after every step. "
           "There is no fault or environment dimension in this property (stated in DESIGN.md 4.8). Non-trivial: at least two position-changing steps. Distinct: distinct run digests."),
-    probes=["post_increment", "write_through_iterator", "size_t_overload_used", "traversal_of_empty_container", "container_resized_walkers_reseated", "positions_beyond_2^31"],
+    probes=["post_increment", "write_through_iterator", "size_t_overload_used", "traversal_of_empty_container", "container_resized_walkers_reseated", "positions_beyond_2^31", "assigned_over_an_iterator_with_another_step"],
     components=dict(real=["include/xtl/xiterator_base.hpp (xbidirectional_iterator_base, xrandom_access_iterator_base, xrandom_access_iterator_ext, xkey_iterator, xvalue_iterator, xstepping_iterator)",
                           "include/xtl/xdynamic_bitset.hpp (xbitset_iterator)", "include/xtl/xoptional_sequence.hpp (xoptional_iterator)", "include/xtl/xcomplex_sequence.hpp (xcomplex_iterator)"],
                     stub=["integer model index per walker", "a minimal derived iterator as in the repository's own test"]),
